@@ -63,11 +63,11 @@ def witnesses():
     return out
 
 
-def exhaustive():
+def exhaustive(fmts=None, Tmax=8):
     out = []
     rot = itertools.count()
-    for fmt in FORMATS:
-        for T in range(1, 9):
+    for fmt in (fmts or FORMATS):
+        for T in range(1, Tmax + 1):
             for c in range(0, 10):
                 for s in range(1, 5):
                     for k in range(0, T + 1):
@@ -186,7 +186,9 @@ def classify(c, r, spec_frames):
         got = flat(r)
         if not got:
             return "refuses"
-        return "raises_at_end" if got == spec_frames else "wrong_frames"
+        if got == spec_frames:
+            return "raises_at_end"
+        return "raises_midway" if got == spec_frames[:len(got)] else "wrong_frames"
     return "wrong_chunk_sizes" if flat(r) == spec_frames else "wrong_frames"
 
 
@@ -212,6 +214,7 @@ def run_cases(ctx, cases, replaying=False):
     workers = 4
     res = ctx.run_impl("load_impl.py", {"workers": workers, "cases": cases, "probe_trr": True}, timeout=3000)
     outs = res["results"]
+    ctx.log("implementation ran %d cases" % len(cases))
     # ---- heap-overflow probe (trr, stride>1 with an atom subset)
     pr = res.get("probe_trr") or {}
     if pr.get("signaled") or (pr.get("exit") not in (0, None)):
@@ -233,15 +236,32 @@ def run_cases(ctx, cases, replaying=False):
             continue
         expressible.append(True)
         exp = coq_outcome(r)
+        if c.get("isolate"):
+            # the memory-unsafe class (trr, stride>1, atom subset): the overflow may also corrupt the data that is
+            # returned, so these cases are compared with the property only and take no part in the tie
+            jobs.append((ci, SPEC, 0))
+            coqcases.append((coq_case(c, SPEC, 0), exp))
+            continue
         for v in FORMATS[c["fmt"]] + [SPEC]:
             for g in (glue_choices(c) if v != SPEC else [0]):
                 jobs.append((ci, v, g))
                 coqcases.append((coq_case(c, v, g), exp))
-    bad, errs = ctx.coq_mismatches(["MD.Load.Model"], ("xcase", "outcome"), "outcome_eqb", "run_case", coqcases)
+    # ctx.coq_mismatches numbers the cases with (unary) nat literals: keep every call below 4000 cases so
+    # that the indices stay small (one call with ~100k cases spends its time building the indices)
+    bad, errs = [], []
+    B = 3200
+    for off in range(0, len(coqcases), B):
+        b, e = ctx.coq_mismatches(["MD.Load.Model"], ("xcase", "outcome"), "outcome_eqb", "run_case",
+                                  coqcases[off:off + B])
+        bad += [off + i for i in b]
+        errs += e
+        if e:
+            break
     if errs:
         ctx.break_("correspondence:coqc-evaluation", "\n".join(errs))
         return
     badset = {jobs[i] for i in bad}
+    ctx.log("coq evaluated %d (case, variant) pairs" % len(coqcases))
 
     def ok(ci, v, g):
         c = cases[ci]
@@ -253,7 +273,7 @@ def run_cases(ctx, cases, replaying=False):
     # 1. the tie: per format one (reader variant, glue) reproduces the implementation on ALL its cases
     explained = {}
     for fmt, variants in FORMATS.items():
-        idx = [i for i, c in enumerate(cases) if c["fmt"] == fmt and expressible[i]]
+        idx = [i for i, c in enumerate(cases) if c["fmt"] == fmt and expressible[i] and not c.get("isolate")]
         if not idx:
             continue
         choice = None
@@ -295,17 +315,31 @@ def run_cases(ctx, cases, replaying=False):
         fmt = c["fmt"]
         vg = explained.get(fmt)
         diverged = r.get("err") in ("NonTermination", "Timeout")
+        if c.get("isolate"):
+            trajs = [r["traj"]] if "traj" in r else r.get("chunks", [])
+            odd = (ci, SPEC, 0) in badset or any(t.get("time_bad") or t.get("cell_bad") or t.get("top_matches_xyz") is False
+                                                 or any(i < 0 for i, _f in t["frames"]) for t in trajs)
+            # chunk == 0 drops the stride (known finding of its own): not evidence of the overflow
+            if odd and not (path_of(c) == "chunk0"):
+                ctx.fail("trr: read(stride>1, atom_indices=subset) corrupts the heap (wrong data returned)", c, observed=r,
+                         expected="spec", tags={"fmt": "trr", "kind": "memory_unsafe"})
+            continue
         if (ci, SPEC, 0) in badset:
             p = path_of(c)
+            # attribution is per case (so that a replay of this case alone gives the same verdict): the
+            # variant chosen for the format if it reproduces this case, else the first acceptable one that does
             who = None
-            if vg is not None:
-                v, g = vg
-                if p == "chunk0" and not (g & 1) and ok(ci, v, 0) and not ok(ci, v, 1):
+            order = ([vg] if vg is not None else []) + [(v, g) for v in FORMATS[fmt] for g in (3, 1, 2, 0)]
+            for v, g in order:
+                if v == SPEC or not ok(ci, v, g):
+                    continue
+                if p == "chunk0" and not (g & 1) and not ok(ci, v, 1):
                     who = "chunk0_cur"
-                elif p == "pdbiter" and not (g & 2):
+                elif p == "pdbiter" and not (g & 2) and not ok(ci, v, 2):
                     who = "pdbiter_cur"
                 else:
                     who = VNAME[v]
+                break
             kind = classify(c, r, spec_flat(c))
             tags = {"fmt": fmt, "api": c["kind"], "path": p, "explained_by": who, "kind": kind,
                     "skip_all": bool(c["kind"] == "iterload" and c["skip"] >= c["Ts"][0])}
@@ -342,9 +376,22 @@ def correspond(ctx):
 
 
 def search(ctx, broken):
-    # the correspondence stage already compares the implementation with the property itself
-    # (spec_*) on every case, so a broken proof or tie has been searched with the same oracle.
-    pass
+    """A proof or a tie broke and the sampled cases showed no failing input: run the property oracle
+    (spec_* evaluated in coqc vs the implementation) on the exhaustive small scope T <= 5 of the formats
+    whose tie broke (all formats when a proof broke)."""
+    import re
+    fmts = set()
+    for b in broken:
+        m = re.match(r"correspondence:load-model\[(.+)\]", b.get("name", ""))
+        if m:
+            fmts.add(m.group(1))
+    if ctx.tier != "quick" and fmts:
+        return          # the thorough tier has already enumerated the scope
+    cases = exhaustive(sorted(fmts) or None, Tmax=5 if fmts else 4)
+    ctx.log("search: %d cases on %s" % (len(cases), sorted(fmts) or "all formats"))
+    n0 = len(ctx.broken)
+    run_cases(ctx, cases)
+    del ctx.broken[n0:]      # the tie is already recorded as broken; keep one entry per cause
 
 
 def replay(ctx, rec):
